@@ -124,9 +124,16 @@ def check(ctx):
 def _symbol_reads(fn, owner):
     """names N in `<owner>.symbols.N` inside a function."""
     out = []
+    is_tab = lambda e: isinstance(e, ast.Attribute) and e.attr == "symbols" and isinstance(e.value, ast.Name) and e.value.id == owner
+    # locals that stand for the symbol table (`sym = self.symbols`), bound once in the function
+    stores = {}
     for n in ast.walk(fn):
-        if isinstance(n, ast.Attribute) and isinstance(n.value, ast.Attribute) and n.value.attr == "symbols" \
-                and isinstance(n.value.value, ast.Name) and n.value.value.id == owner:
+        if isinstance(n, ast.Name) and isinstance(n.ctx, (ast.Store, ast.Del)):
+            stores[n.id] = stores.get(n.id, 0) + 1
+    alias = {st.targets[0].id for st in ast.walk(fn) if isinstance(st, ast.Assign) and len(st.targets) == 1 and isinstance(st.targets[0], ast.Name)
+             and is_tab(st.value) and stores.get(st.targets[0].id) == 1}
+    for n in ast.walk(fn):
+        if isinstance(n, ast.Attribute) and isinstance(n.ctx, ast.Load) and (is_tab(n.value) or (isinstance(n.value, ast.Name) and n.value.id in alias)):
             out.append((n.attr, n.lineno))
     return out
 
@@ -445,15 +452,26 @@ def _r5(ctx, pkg):
                                   f"the {kind} loop covers {J.show(complist)}", expected=J.show(complist), found=J.show(comps) if comps else "unset")
                         # body: `realtype key = u_data->key;` / `realtype key = value;`
                         tv = it[1]
-                        outs = [x[1] for x in it[3] if x[0] == "out"]
-                        txt = "".join(x[1] for x in it[3] if x[0] == "text")
-                        if kind == "params":
-                            good = len(outs) == 2 and outs[0] == outs[1] == tv[1][0] and re.search(r"(realtype|double)\s+=\s+\w+->;", re.sub(r"\s+", " ", txt).replace("  ", " ")) is not None
+                        # (key, value) of the enumeration: the two loop targets, or item 0 / 1 of a single target
+                        if tv[0] in ("tuple", "list") and len(tv[1]) == 2:
+                            kx, vx = {tv[1][0]}, {tv[1][1]}
                         else:
-                            good = len(outs) == 2 and outs[0] == tv[1][0] and outs[1] == tv[1][1] and re.search(r"(realtype|double)\s+=\s*;", re.sub(r"\s+", " ", txt)) is not None
-                        ctx.check(good, "R5", f"{key}:{kind}-declaration", (rel, it[5]),
-                                  "each symbol is declared once as a local of this function from the enumeration's own key" + ("" if kind == "params" else " and value"),
-                                  found=f"{[J.show(o) for o in outs]} in {txt.strip()[:60]!r}")
+                            kx, vx = {("item", tv, ("const", 0))}, {("item", tv, ("const", 1))}
+                        body = J.inline_sets(it[3])          # `{% set name = key %}` / macro parameters read as what they stand for
+                        outs = [x[1] for x in body if x[0] == "out"]
+                        txt = re.sub(r"\s+", " ", "".join(x[1] for x in body if x[0] == "text"))
+                        shape = len(outs) == 2 and not any(x[0] in ("for", "if") for x in body) and \
+                            re.search(r"(realtype|double)\s+=\s+\w+->;" if kind == "params" else r"(realtype|double)\s+=\s*;", txt) is not None
+                        if kind == "params":
+                            good = shape and outs[0] == outs[1] and outs[0] in kx
+                        else:
+                            good = shape and outs[0] in kx and outs[1] in vx
+                        dkey = f"{key}:{kind}-declaration"
+                        dmsg = "each symbol is declared once as a local of this function from the enumeration's own key" + ("" if kind == "params" else " and value")
+                        if good or shape:
+                            ctx.check(good, "R5", dkey, (rel, it[5]), dmsg, found=f"{[J.show(o) for o in outs]} in {txt.strip()[:60]!r}")
+                        else:
+                            ctx.unrec("R5", dkey, (rel, it[5]), f"the body of the {kind} loop is not one declaration `type <key> = ...;`: {[J.show(o) for o in outs]} in {txt.strip()[:60]!r}")
     ctx.floor("R5", "expression-pasting functions", n, 14)
     # NaunetData fields and constants from the same enumerations
     for rel, kind, pat in ((DATA_H, "params", r"double"), (CONST_H, "constants", r"extern"), (CONST_C, "constants", r"double")):
